@@ -1755,6 +1755,12 @@ func jsonhRunJson(cfg Cfg) {
 		time.Date(2038, 1, 19, 3, 14, 8, 120, time.FixedZone("s", 3723)),
 		time.Date(1600, 6, 1, 1, 2, 3, 999, time.FixedZone("neg", -12*3600)),
 	}
+	// one instant (and its neighbours within the same second) seen from several zones: anything keyed
+	// by the Unix second or by the wall-clock text alone confuses these
+	same := time.Date(2025, 3, 9, 23, 59, 59, 123456789, time.UTC)
+	for _, z := range []*time.Location{time.UTC, time.FixedZone("", 8*3600), time.FixedZone("", -(5*3600 + 1800)), time.FixedZone("", 14*3600)} {
+		j.times = append(j.times, same.In(z), same.Add(700*time.Millisecond).In(z))
+	}
 
 	// 1. regression corpus, each case through both APIs
 	for _, in := range jsonhCorpus(j.times) {
